@@ -94,6 +94,11 @@ _COORDS = np.array(
 # --------------------------------------------------------------------------- oracle
 
 
+_PRIMERS = ("vertex_adjacency_graph", "edges_sparse", "faces_sparse", "face_adjacency", "edges_unique",
+            "vertex_faces", "face_neighborhood", "face_adjacency_edges", "edges_sorted", "referenced_vertices",
+            "vertex_neighbors", "vertex_degree", "face_adjacency_unshared", "edges_unique_inverse")
+
+
 class UF:
     def __init__(self, n):
         self.p = list(range(n))
@@ -434,7 +439,7 @@ def check_mesh(run, tag, F, nv, V=None, closed=False, facets=False, split_defaul
         if [i for i, r in enumerate(ref) if r] != sorted(R.referenced) or len(ref) != nv:
             J.bad("referenced_vertices", "property", "mismatch", "referenced_vertices wrong")
 
-    J.guard("edges", "property", edges)
+    groups = [("edges", "property", edges)]
 
     # ---- adjacency
     def adjacency():
@@ -458,7 +463,7 @@ def check_mesh(run, tag, F, nv, V=None, closed=False, facets=False, split_defaul
         if sorted(x + y for x, y in zip(_rows(a3), _rows(e3))) != sorted(t[:4] for t in R.adj):
             J.bad("face_adjacency", "free_mesh", "mismatch", "face_adjacency(mesh=) differs from counting")
 
-    J.guard("face_adjacency", "property", adjacency)
+    groups.append(("face_adjacency", "property", adjacency))
 
     # ---- neighbours, incident faces, degree
     def neighbours():
@@ -476,7 +481,7 @@ def check_mesh(run, tag, F, nv, V=None, closed=False, facets=False, split_defaul
                     J.bad("vertex_neighbors", route, "mismatch", "neighbours differ from the edge endpoints", vertex=v,
                           got=lst, want=sorted(want))
 
-    J.guard("vertex_neighbors", "property", neighbours)
+    groups.append(("vertex_neighbors", "property", neighbours))
 
     def incidence():
         before = tap.fallback
@@ -506,7 +511,7 @@ def check_mesh(run, tag, F, nv, V=None, closed=False, facets=False, split_defaul
                           got=d[v], want=[per_face, per_occ])
                     break
 
-    J.guard("vertex_faces", "property", incidence)
+    groups.append(("vertex_faces", "property", incidence))
 
     # ---- scalars
     def scalars():
@@ -521,7 +526,30 @@ def check_mesh(run, tag, F, nv, V=None, closed=False, facets=False, split_defaul
         if int(m.body_count) != bc:
             J.bad("body_count", "property", "mismatch", "body_count != vertex components by union-find", got=int(m.body_count), want=bc)
 
-    J.guard("scalars", "property", scalars)
+    groups.append(("scalars", "property", scalars))
+
+    # The answers are defined by the faces alone, so they may not depend on which other query was
+    # answered first (several properties take shortcuts through values another one cached).  The
+    # read order and the values read beforehand are therefore varied from case to case - chosen
+    # from the face array itself so that a replay repeats them.
+    h = (int(F.sum()) * 2654435761 + n * 40503 + nv * 97) & 0xFFFFFFFF
+    primers = []
+    if h % 3:
+        primers.append(_PRIMERS[(h >> 3) % len(_PRIMERS)])
+    if h % 3 == 2:
+        primers.append(_PRIMERS[(h >> 11) % len(_PRIMERS)])
+    for name in primers:
+        try:
+            getattr(m, name)
+        except BaseException:
+            pass  # a primer is only there to warm the cache
+    k = (h >> 7) % len(groups)
+    groups = groups[k:] + groups[:k]
+    if (h >> 5) & 1:
+        groups.reverse()
+    run.state("read_order", (tuple(primers), groups[0][0], groups[-1][0]))
+    for name, route, fn in groups:
+        J.guard(name, route, fn)
 
     # ---- components
     adjacency_arr = np.array([t[:2] for t in R.adj], dtype=np.int64).reshape(-1, 2)
